@@ -3,6 +3,7 @@
 -/
 import GeonumModel.Lemmas.GradeAngle
 import GeonumModel.Lemmas.Exact
+import GeonumModel.Props.C05
 
 set_option linter.unusedSectionVars false
 set_option linter.unusedVariables false
@@ -131,10 +132,42 @@ theorem tan_period_real {a : Angle ℝ} (ha : a.Inv) (hc : Real.cos (T a) ≠ 0)
   obtain ⟨t', ht', hm', _, _⟩ := tan_real hninv hc'
   exact ⟨t, t', ht, ht', by rw [hm', hm, hT, Real.tan_add_pi]⟩
 
+/-- (E) `adj` and `opp` scale cosine and sine by the magnitude: `|adj| = |g||cos T|`, `|opp| = |g||sin T|`, so
+    `adj² + opp² = |g|²`; for a non-negative magnitude they stay on the cosine's / sine's lattice point (blade 0/2, resp. 1/3),
+    i.e. their signed values are the Cartesian components `|g|cos T`, `|g|sin T` -/
+theorem adj_opp_real {g : Geonum ℝ} (hg : g.angle.Inv) (h0 : 0 ≤ g.mag) :
+    g.adj.mag = g.mag * |Real.cos (T g.angle)| ∧ g.opp.mag = g.mag * |Real.sin (T g.angle)| ∧
+    g.adj.mag ^ 2 + g.opp.mag ^ 2 = g.mag ^ 2 ∧
+    g.adj.angle.blade = (Geonum.cos g.angle).angle.blade ∧ g.opp.angle.blade = (Geonum.sin g.angle).angle.blade := by
+  obtain ⟨hcm, hsm, hpy⟩ := cos_sin_values_real g.angle
+  obtain ⟨hcb, hcr, hsb, hsr, _⟩ := cos_sin_lattice (F := ℝ) hg
+  simp only [val_id] at hcr hsr
+  have zinv : ∀ x : Angle ℝ, x.rem = 0 → x.Inv := by
+    intro x hv
+    refine ⟨trivial, by rw [val_id, hv], ?_⟩
+    rw [val_id, hv, zero_add]
+    have h1 := val_e10_small (F := ℝ); have h2 := val_qp_gt (F := ℝ)
+    have : (1:ℝ) / 10 ^ 9 ≤ 1 := by rw [div_le_one (by positivity)]; norm_num
+    linarith
+  have sc := C05.scale_spec (F := ℝ) (g := Geonum.cos g.angle) (f := g.mag) trivial trivial (zinv _ hcr) trivial
+  have ss := C05.scale_spec (F := ℝ) (g := Geonum.sin g.angle) (f := g.mag) trivial trivial (zinv _ hsr) trivial
+  simp only [val_id] at sc ss
+  have ha : g.adj.mag = g.mag * |Real.cos (T g.angle)| := by
+    show ((Geonum.cos g.angle).scale g.mag).mag = _
+    rw [sc.1, hcm, abs_of_nonneg h0]; show |Real.cos (T g.angle)| * g.mag = _; ring
+  have ho : g.opp.mag = g.mag * |Real.sin (T g.angle)| := by
+    show ((Geonum.sin g.angle).scale g.mag).mag = _
+    rw [ss.1, hsm, abs_of_nonneg h0]; show |Real.sin (T g.angle)| * g.mag = _; ring
+  refine ⟨ha, ho, ?_, sc.2.1 h0, ss.2.1 h0⟩
+  rw [ha, ho, mul_pow, mul_pow, sq_abs, sq_abs]
+  have := Real.sin_sq_add_cos_sq (T g.angle)
+  nlinarith [this]
+
 end E
 
-/-! PARTIAL (not yet proved): adj/opp as the signed Cartesian components and adj² + opp² = |g|² (they follow from `cos_sin_values_real`
-    and the scale sign law C05.scale_spec).  Explored by `oracle.C15.adj`. -/
+/-! (all clauses of C15 now have a theorem in exact arithmetic; float values are explored by `oracle.C15.*`) -/
+
+
 
 example {F : Type} [FloatSpec F] : (⟨zero, 7⟩ : Angle F).Inv := inv_zero 7
 
